@@ -222,6 +222,7 @@ def named_keys():
 def events():
     ev = [('U', ai, si) for ai in range(len(ALGS)) for si in range(len(SLOTS))]
     ev += [('R', 1), ('R', 10), ('REOPEN',), ('RESET', 3), ('TRACE',), ('B', 'alg'), ('B', 'sv'), ('ADD', 'T1'), ('ADD', 'T')]
+    ev += [('WORM', 0, 'T1'), ('WORM', 1, None), ('WORM', None, 'T1')]
     return ev
 
 
@@ -293,6 +294,23 @@ def hist_body(k, sel, warm_start=False):
                     if hit:
                         rt.nontrivial()
                     rt.require((x[-1] not in after) == hit, 'c08:remove-inexact', f'remove(run={e[1]},T1,ta,a,s,v): entry {x[:8]} {"kept" if hit else "deleted"}')
+            elif e[0] == 'WORM':
+                # db.tools.worm.consume(runid, target, None...): None is a wildcard, everything else exact
+                import dawgie.db.tools.worm as worm
+
+                rt.note(f'WORM consume(runid={e[1]}, target={e[2]})')
+                dawgie.db.open = lambda: None
+                dawgie.db.close = lambda: None
+                dawgie.db._prime_keys = shelve_db._prime_keys
+                dawgie.db.remove = shelve_db.remove
+                before = named_keys()
+                worm.consume(e[1], e[2], None, None, None, None)
+                after = {x[-1] for x in named_keys()}
+                for x in before:
+                    hit = (e[1] is None or x[0] == e[1]) and (e[2] is None or x[1] == e[2])
+                    if hit:
+                        rt.nontrivial()
+                    rt.require((x[-1] not in after) == hit, 'c08:worm-inexact', f'worm.consume(runid={e[1]}, target={e[2]}): entry {x[:6]} {"kept" if hit else "deleted"}')
             elif e[0] == 'RESET':
                 if 'T1' not in d.tables.target or 'ta' not in d.tables.task:
                     return
@@ -333,15 +351,15 @@ INFO = {
     'index[table[k]]==k, every prime key resolves task->algorithm->state vector->value, next() exceeds every stored run id (numeric, '
     'run 10 vs 3), ids survive close+reopen, and remove/reset/trace touch or report exactly the exactly-named entries (brute-force oracle).',
     'rule': 'lemmas: one path = one case split of the string comparisons; histories: one case = one operation history; non-trivial = an addressed entry existed',
-    'functions': ['db.shelve.util.construct', 'dissect', 'subset', 'append', 'indexed', 'prime_keys', 'db.shelve.state.DBI.open/close', 'db.shelve.add/next/remove/reset/trace/targets',
+    'functions': ['db.shelve.util.construct', 'dissect', 'subset', 'append', 'indexed', 'prime_keys', 'db.shelve.state.DBI.open/close', 'db.shelve.add/next/remove/reset/trace/targets', 'db.tools.worm.consume',
                   'db.shelve.model.Interface._update'],
     'bounds': {
-        'quick': 'histories start from an empty catalogue and from a warm one (12 algorithms registered, so that catalogue ids 1 and 10.. coexist); names: all strings of <=3 characters (round trip, CrossHair); selection lemma (AST->SMT): all pairs of names of 1..6 characters, parents from {0,1,3,10,11}, versions none/1.1.0/1.10.2; histories of <=3 operations from 21 kinds',
+        'quick': 'histories start from an empty catalogue and from a warm one (12 algorithms registered, so that catalogue ids 1 and 10.. coexist); names: all strings of <=3 characters (round trip, CrossHair); selection lemma (AST->SMT): all pairs of names of 1..6 characters, parents from {0,1,3,10,11}, versions none/1.1.0/1.10.2; histories of <=3 operations from 24 kinds (incl. the worm tool with run id 0, a run id, a target)',
         'thorough': 'round trip: names <=4 characters; selection lemma: names of 1..12 characters; histories of <=4 operations',
     },
     'assumptions': ['names contain none of the reserved separator characters ":" and "_" (compliance rules forbid "." only; the separators are DAWGIE-internal)',
                     'history world: real dbm files, routed requests, in-memory blob store; parents/versions/run ids from pools'],
-    'outside': ['db.tools.worm', 'names containing the separator substrings', 'longer histories'],
+    'outside': ['names containing the separator substrings', 'longer histories'],
 }
 
 
